@@ -155,6 +155,7 @@ pub fn gen_random(seed: u64, idx: u64) -> Plan {
         if tls {
             c.kind = ConnKind::Tls;
         }
+        fit_c2s(&mut c);
         conns.push(c);
     }
     Plan {
